@@ -332,6 +332,12 @@ def boundary_cfgs(th):
                                 "costs": list(v)})
                 out.append({"cls": "HRevolve", "n": n, "ram": ram, "disk": 2,
                             "costs": list(v)})
+    # more than 1000 checkpoint units
+    out.append({"cls": "Multistage", "n": 1500, "ram": 50, "disk": 1350,
+                "traj": "revolve"})
+    out.append({"cls": "Multistage", "n": 1300, "ram": 600, "disk": 550,
+                "traj": "maximum"})
+    out.append({"cls": "Mixed", "n": 150, "s": 130, "storage": "RAM"})
     # small / fractional forward cost regimes
     for v in ([0.5, 1, 0, 0], [0.25, 4, 0.5, 0.5], [0.125, 1, 1, 0],
               [0.5, 0.5, 0.25, 0.25]):
